@@ -21,6 +21,20 @@ TYPES = {'Facility': 1, 'SubInterface': 2, 'SharedPort': 3, 'ServicePort': 4, 'D
 _types_dyn = {}
 
 
+_switch_rb = []
+
+
+def switch_rollback():
+    """does the running library's Topology.add_switch remove the half-built switch when a later step fails
+    (proposed_fixes/C09-5.patch)?  Read off its source; the model takes it as a flag."""
+    if not _switch_rb:
+        import inspect
+        from fim.user.topology import Topology
+        src = inspect.getsource(Topology.add_switch)
+        _switch_rb.append('remove_network_node_with_components_nss_cps_and_links' in src and 'except' in src)
+    return _switch_rb[0]
+
+
 def ctype(t):
     if t in TYPES:
         return TYPES[t]
@@ -116,7 +130,7 @@ def coq_call(s, info, ids):
         d = (lambda suf: cN(ids(nid + suf))) if nid else (lambda suf: cN(0))
         np_ = s.get('nports', 2)
         dk = clist([d('-int%d' % i) for i in range(1, np_ + 1)])
-        return 'CAddSwitch %s %s %s %s %s %s %s %s' % (name, oid, d('-ns'), dk, cN(ctype(s.get('nstype', 'P4'))),
+        return 'CAddSwitch %s %s %s %s %s %s %s %s %s' % (cbool(switch_rollback()), name, oid, d('-ns'), dk, cN(ctype(s.get('nstype', 'P4'))),
                                                      cexn(info['pure_ns']), cnat(np_), cexn(info['pure_port']))
     raise ValueError(op)
 
